@@ -150,6 +150,7 @@ class _ParseTreeProcessor(parsimonious.NodeVisitor):
         self._comment = ""
         self._comment_is_header = True
         self._attribute_line_number = 0  # Line of the attribute whose commit is pending.
+        self._line_breaks_inside_statement = 0  # A string literal may span several lines.
         self._strict = bool(strict)
         super().__init__()
 
@@ -202,7 +203,8 @@ class _ParseTreeProcessor(parsimonious.NodeVisitor):
             self._flush_comment()
 
     def visit_end_of_line(self, _n: _Node, _c: _Children) -> None:
-        self._current_line_number += 1
+        self._current_line_number += 1 + self._line_breaks_inside_statement
+        self._line_breaks_inside_statement = 0
         if _verif_trace.ENABLED:
             _verif_trace.emit("eol", line=self._current_line_number)
 
@@ -479,9 +481,11 @@ class _ParseTreeProcessor(parsimonious.NodeVisitor):
         return _expression.Boolean(False)
 
     def visit_literal_string_single_quoted(self, node: _Node, _c: _Children) -> _expression.String:
+        self._line_breaks_inside_statement += node.text.count("\n")
         return _parse_string_literal(node.text)
 
     def visit_literal_string_double_quoted(self, node: _Node, _c: _Children) -> _expression.String:
+        self._line_breaks_inside_statement += node.text.count("\n")
         return _parse_string_literal(node.text)
 
 
